@@ -279,3 +279,89 @@ Definition tcp_writes (tp : option pattern) (data : list N) (draws : list Z) : l
 Definition frag_sleep (tp : option pattern) (d : Z) : option Z :=
   let ms := getZ (sub (sub tp tp_tcp) tf_max_sleep) in
   if 0 <? ms then Some (d mod (ms + 1)) else None.
+
+(* ------------------------------------------------------------------ UDP server: cipher blocks and the nonce pattern *)
+(* pkg/protocol/underlay_packet.go readOneSegment / tryDecryptExistingSession /
+   serverTryDecryptMetadataForNewSession / onOpenSessionRequest, Session.input (s.block.Store) and
+   pkg/cipher/cipher.go newNonceTo.  A datagram the server emits is encrypted with a cipher block that reached the
+   sender through one of three paths: discovered for the openSessionRequest that created the session (Open), the
+   block of an existing session from the same address (Existing), or discovered for a datagram that did NOT create
+   a session (Rediscovered: a known session seen from a new address - Session.input then swaps the block in - or an
+   unknown session id, answered with closeSessionRequest).  Blocks are shared by reference (multiplexed sessions),
+   so the state keeps a block table and sessions hold indices.  One user is modelled (cross-user traffic is C10).
+   [at_discovery = true] is the code: SetNoncePattern on every discovered block; [false] is the variant that sets
+   it in onOpenSessionRequest only (kept for the refutation example). *)
+Inductive block_origin := OriginOpen | OriginExisting | OriginRediscovered.
+
+Record sblock := { bk_pattern : option nonce_pattern; bk_applied : bool }.
+Record udp_session := { us_sid : Z; us_addr : Z; us_block : nat }.
+Record srv_state := { st_blocks : list sblock; st_sessions : list udp_session }.
+(* an authenticated incoming datagram: open request or not, session id, source address, and how many datagrams the
+   server emits for that session before the next incoming one (replies, echo, acks, retransmissions) *)
+Record in_event := { ev_open : bool; ev_sid : Z; ev_addr : Z; ev_out : nat }.
+Record out_dgram := { dg_path : block_origin; dg_pattern : option nonce_pattern; dg_patterned : bool }.
+
+Definition server_nonce_cfg (tp : option pattern) : option nonce_pattern := sub tp tp_nonce.
+
+Definition discover (tp : option pattern) (at_discovery : bool) (path : block_origin) : sblock :=
+  {| bk_pattern := if at_discovery || (match path with OriginOpen => true | _ => false end)
+                   then server_nonce_cfg tp else None;
+     bk_applied := false |}.
+
+(* newNonceTo on a stateless cipher: no pattern => random; otherwise the apply rule, then noncePatternApplied *)
+Definition emit_one (path : block_origin) (b : sblock) : out_dgram * sblock :=
+  match bk_pattern b with
+  | None => ({| dg_path := path; dg_pattern := None; dg_patterned := false |}, b)
+  | Some np =>
+    ({| dg_path := path; dg_pattern := Some np;
+        dg_patterned := nonce_pattern_applies false (bk_applied b) (getB (np_all_udp np)) |},
+     {| bk_pattern := Some np;
+        bk_applied := if nonce_pattern_applies false (bk_applied b) (getB (np_all_udp np)) then true else bk_applied b |})
+  end.
+
+Fixpoint emit_n (path : block_origin) (b : sblock) (n : nat) : list out_dgram * sblock :=
+  match n with
+  | O => ([], b)
+  | S k => let '(d, b1) := emit_one path b in
+           let '(ds, b2) := emit_n path b1 k in (d :: ds, b2)
+  end.
+
+Fixpoint set_nth {A : Type} (l : list A) (i : nat) (x : A) : list A :=
+  match l, i with
+  | [], _ => []
+  | _ :: t, O => x :: t
+  | h :: t, S k => h :: set_nth t k x
+  end.
+
+Definition srv_step (tp : option pattern) (at_discovery : bool) (st : srv_state) (ev : in_event)
+  : list out_dgram * srv_state :=
+  let '(path, bi, blocks1) :=
+    match find (fun s => us_addr s =? ev_addr ev) (st_sessions st) with
+    | Some s => (OriginExisting, us_block s, st_blocks st)
+    | None => let path := if ev_open ev then OriginOpen else OriginRediscovered in
+              (path, length (st_blocks st), st_blocks st ++ [discover tp at_discovery path])
+    end in
+  let '(sessions1, n_out) :=
+    match find (fun s => us_sid s =? ev_sid ev) (st_sessions st) with
+    | Some _ => (map (fun s => if us_sid s =? ev_sid ev
+                               then {| us_sid := us_sid s; us_addr := us_addr s; us_block := bi |} else s)
+                     (st_sessions st), ev_out ev)
+    | None => if ev_open ev
+              then (st_sessions st ++ [{| us_sid := ev_sid ev; us_addr := ev_addr ev; us_block := bi |}], ev_out ev)
+              else (st_sessions st, 1%nat)       (* unknown session: one closeSessionRequest *)
+    end in
+  match nth_error blocks1 bi with
+  | None => ([], {| st_blocks := blocks1; st_sessions := sessions1 |})   (* never: block indices are valid *)
+  | Some b => let '(ds, b') := emit_n path b n_out in
+              (ds, {| st_blocks := set_nth blocks1 bi b'; st_sessions := sessions1 |})
+  end.
+
+(* what the server emits for each incoming datagram of a history, from the empty state *)
+Fixpoint srv_run (tp : option pattern) (at_discovery : bool) (st : srv_state) (hist : list in_event)
+  : list (list out_dgram) :=
+  match hist with
+  | [] => []
+  | ev :: rest => let '(ds, st1) := srv_step tp at_discovery st ev in ds :: srv_run tp at_discovery st1 rest
+  end.
+
+Definition srv_empty : srv_state := {| st_blocks := []; st_sessions := [] |}.
